@@ -20,6 +20,7 @@ func init() {
 			`R06.6 a queued file is copied whole from the archive into the target for the same index; R16.7 (shared) no wound is sent before the consumer exists; R06.7 the verdict about a directory reaches what lies below it: each way of finding a directory of the wrong kind writes a record, and every examination of an entry of the build (Lstat, Readlink, opening through the pool - in the three passes) is dominated by a branch whose condition reads that record (directly, through a closure, or through a function-typed parameter resolved at its call sites); ` +
 			`(R06.4 of the design, queue capacity, was dropped as not necessary.) ` +
 			`R05.3/R05.5/R05.6 (shared) the deviation table of the validator: the healer repairs what is reported. ` +
+			`R06.3 also: the FILE case returns without queueing only through the outcome files[idx] == true (a FILE wound is a file to re-make whatever its range). ` +
 			`NOT decided: that healed content equals the signed content, validator/healer interleavings, behaviour under cancellation.`,
 		Assumptions: []string{"the healer's repair switch is the function literal in ArchiveHealer.Do that switches on wound.Kind"},
 		Run:         runC06,
@@ -441,6 +442,36 @@ func runC06(c *core.Ctx) {
 			})
 			c.Check(guardedByLookup, "R06.3", core.FnName(repair), "FILE: queued at most once per file", core.InstrPos(sendInstr),
 				"the send is reached only when files[idx] was not yet set", "the queue send is not guarded by the once-per-file set")
+			// ... and skipped only for that reason: a FILE wound is a file that must be rewritten whatever its range
+			// (a missing file that was signed as empty is the wound [0,0)); the case returns without queueing only
+			// where the once-per-file set says the file is queued already
+			nSkip := 0
+			for _, rs := range successReturns(repair) {
+				if !hasGuard(rs.Ret, func(g core.Guard) bool { return g.If == ifi && g.Val }) {
+					continue
+				}
+				if core.FindPath(repair, ifi, isInstr(rs.Ret), isInstr(sendInstr)) == nil {
+					continue // reached only through the queueing statement
+				}
+				nSkip++
+				already := hasGuard(rs.Ret, func(g core.Guard) bool {
+					for _, o := range core.Origins(g.Cond) {
+						if _, ok := o.(*ssa.Lookup); ok {
+							return g.Val
+						}
+						if ex, ok := o.(*ssa.Extract); ok {
+							if _, ok := ex.Tuple.(*ssa.Lookup); ok {
+								return g.Val
+							}
+						}
+					}
+					return false
+				})
+				c.Check(already, "R06.3", core.FnName(repair), "FILE: a wound is passed over only when the file is already queued", core.InstrPos(rs.Ret),
+					"the return that skips the queueing is reached only through the outcome files[idx] == true",
+					"a FILE wound can be dropped for another reason than 'already queued' (its size, its range ...): a file that has to be re-made - a missing file signed as empty is the wound [0,0) - is never queued, healing reports success and the file is not there")
+			}
+			c.Stats["R06.3.skip_returns"] = nSkip
 			// (R06.4 of the design — queue capacity len(container.Files) — was dropped: with a smaller queue the wound
 			// consumer merely waits for the healing goroutine, which keeps consuming; it is not a necessary condition)
 			for _, o := range core.Origins(queue) {
